@@ -70,6 +70,18 @@ def the_msg(case):
 def impl(case):
     from cardutil import iso8583
     m = the_msg(case)
+    if case['seed'] % 3 == 0:
+        # an earlier call in the same process under ANOTHER configuration with the same element numbers in the same order,
+        # in which two of the carriers are plain text elements: the carriers of the packaged configuration are what they are
+        import copy
+        from cardutil.config import config
+        other = copy.deepcopy(config['bit_config'])
+        for b in (('62', '124') if case['seed'] % 2 else ('48', '123')):
+            other[b].pop('field_processor', None)
+        try:
+            iso8583.loads(iso8583.dumps({'MTI': '1240', 'PDS0001': 'a' * 600, 'PDS0002': 'b' * 600, 'PDS0003': 'c' * 600}, iso_config=other), iso_config=other)
+        except Exception:
+            pass
     res = {'pack': outcome(lambda: iso8583._pds_to_de(dict(m)), lambda l: ','.join(hs(x).replace('-', '_') for x in l) or '-'),
            'dumps': outcome(lambda: iso8583.dumps(dict(m)), hb)}
     if res['dumps'].startswith('OK '):
